@@ -67,6 +67,9 @@ def write_evidence(here, prop, tier, seed, mod, results, counts, wall, nviol, kn
         'wall_s': round(wall, 2),
         'violations': nviol,
     }
+    if ev['level'] == 'translation_validation':
+        ev['coverage']['programs'] = getattr(mod, 'PROGRAMS', len(by_family))
+        ev['coverage']['disagreements_checked'] = nviol + counts.get('known', 0)
     os.makedirs(os.path.join(here, 'evidence'), exist_ok=True)
     with open(os.path.join(here, 'evidence', prop + '.json'), 'w') as f:
         json.dump(ev, f, indent=1, default=str)
